@@ -85,6 +85,7 @@ func TestVP_C08_StreamHistory(t *testing.T) {
 				m.readTo = rapid.IntRange(0, size-1).Draw(t, "readTo")
 			}
 			m.readBuf = rapid.SampledFrom([]int{1, 7, 512, 4096, 16384}).Draw(t, "readBuf")
+			readAgain := rapid.Bool().Draw(t, "readAgainAfterEOF")
 			w, head := m.wire()
 			truncated := false
 			if m.readTo < 0 && size > 0 && rapid.IntRange(0, 5).Draw(t, "truncate") == 0 {
@@ -154,6 +155,15 @@ func TestVP_C08_StreamHistory(t *testing.T) {
 			case m.readTo < 0:
 				if rerr != io.EOF || len(got) != size {
 					fail("complete message: the stream ended with %v after %d of %d body bytes", rerr, len(got), size)
+				}
+				if bs != nil && readAgain {
+					// a stream that has ended stays ended: reading on yields nothing and takes nothing from the reader
+					for j := 0; j < 2; j++ {
+						k, err := bs.Read(make([]byte, m.readBuf))
+						if k != 0 || err != io.EOF {
+							fail("Read #%d after the stream had returned io.EOF returned (%d, %v); want (0, io.EOF)", j+1, k, err)
+						}
+					}
 				}
 				rest, _ := io.ReadAll(br)
 				if string(rest) != vpC08NextMsg {
